@@ -77,6 +77,7 @@ type inliner struct {
 	sites        map[*ssa.Function]int // inlined call sites per helper
 	skipped      map[*ssa.Function]string
 	errs         []string
+	copyInOut    int
 	litArgs      int                    // go/defer literals whose arguments were turned into captured variables
 	regionCopies int                    // calls through a function variable made direct by copying the code after a merge per way in
 	ever         map[*ssa.Function]bool // every function changed by the normalisation
@@ -629,6 +630,7 @@ func (in *inliner) inlineBody(f *ssa.Function, call *ssa.Call, g *ssa.Function, 
 		}
 	}
 	dropInstr(call)
+	in.promoteCopyInOut(f, g, call, cl, b, cont, loads)
 
 	// place the new blocks after b
 	pos := 0
@@ -755,6 +757,182 @@ func (in *inliner) inlineBody(f *ssa.Function, call *ssa.Call, g *ssa.Function, 
 	}
 	in.sites[g]++
 	in.touched[f] = true
+}
+
+// returnsCell: result idx of the return is a read of the variable cell, directly or through the
+// variable go/ssa keeps a result in while deferred calls run (stored in the return's own block).
+func returnsCell(r *ssa.Return, idx int, cell *ssa.Alloc) bool {
+	u, ok := r.Results[idx].(*ssa.UnOp)
+	if !ok || u.Op != token.MUL {
+		return false
+	}
+	if u.X == ssa.Value(cell) {
+		return true
+	}
+	spill, ok := u.X.(*ssa.Alloc)
+	if !ok {
+		return false
+	}
+	var last *ssa.Store
+	for _, x := range r.Block().Instrs {
+		if st, ok := x.(*ssa.Store); ok && st.Addr == ssa.Value(spill) {
+			last = st
+		}
+	}
+	if last == nil {
+		return false
+	}
+	v, ok := last.Val.(*ssa.UnOp)
+	return ok && v.Op == token.MUL && v.X == ssa.Value(cell)
+}
+
+// promoteCopyInOut: `v = h(.., v)` where h keeps its parameter in a variable of its own and every
+// return of h hands that variable back: the list of collected errors threaded by value through a
+// stage helper. The helper's variable is then the caller's for the time of the call — copied in at
+// the call, copied out at the return, and not reachable by anyone else in between — and is
+// replaced by it: what the helper (and the goroutines it starts) append is appended to the
+// caller's list, as it was before the helper was extracted.
+func (in *inliner) promoteCopyInOut(f, g *ssa.Function, call *ssa.Call, cl *cloner, b, cont *ssa.BasicBlock, loads []ssa.Value) {
+	for i, p := range g.Params {
+		if i >= len(call.Call.Args) || p.Referrers() == nil {
+			continue
+		}
+		// the parameter's own variable
+		var cell *ssa.Alloc
+		n := 0
+		for _, r := range *p.Referrers() {
+			if st, ok := r.(*ssa.Store); ok && st.Val == ssa.Value(p) {
+				if a, ok := st.Addr.(*ssa.Alloc); ok {
+					cell = a
+				}
+				n++
+			} else if _, isDbg := r.(*ssa.DebugRef); !isDbg {
+				n = 2
+			}
+		}
+		if n != 1 || cell == nil {
+			continue
+		}
+		nc, ok := cl.vm[cell].(*ssa.Alloc)
+		if !ok || nc.Referrers() == nil {
+			continue
+		}
+		// the argument is a read of a variable of the caller, not written between the read and the call
+		arg, ok := call.Call.Args[i].(*ssa.UnOp)
+		if !ok || arg.Op != token.MUL || arg.Block() != b {
+			continue
+		}
+		A, ok := arg.X.(*ssa.Alloc)
+		if !ok || A.Parent() != f || !types.Identical(A.Type(), nc.Type()) {
+			continue
+		}
+		clean, seen := true, false
+		for _, x := range b.Instrs {
+			if x == ssa.Instruction(arg) {
+				seen = true
+			} else if seen {
+				switch t := x.(type) {
+				case *ssa.Store:
+					if t.Addr == ssa.Value(A) {
+						clean = false
+					}
+				case *ssa.Call, *ssa.Go, *ssa.Defer:
+					clean = false
+				}
+			}
+		}
+		if !clean {
+			continue
+		}
+		// which result hands the variable back, on every return
+		k := -1
+		for idx := 0; idx < g.Signature.Results().Len() && k < 0; idx++ {
+			all, any := true, false
+			for _, gb := range g.Blocks {
+				if r, ok := gb.Instrs[len(gb.Instrs)-1].(*ssa.Return); ok {
+					any = true
+					if !returnsCell(r, idx, cell) {
+						all = false
+					}
+				}
+			}
+			if all && any {
+				k = idx
+			}
+		}
+		if k < 0 || k >= len(loads) {
+			continue
+		}
+		// the caller stores that result back into the same variable, first thing
+		ld := loads[k]
+		var out *ssa.Store
+		okUse := ld.Referrers() != nil
+		if okUse {
+			for _, u := range *ld.Referrers() {
+				switch t := u.(type) {
+				case *ssa.Store:
+					if t.Addr == ssa.Value(A) && t.Val == ld && out == nil && t.Block() == cont {
+						out = t
+					} else {
+						okUse = false
+					}
+				case *ssa.DebugRef:
+				default:
+					okUse = false
+				}
+			}
+		}
+		if !okUse || out == nil {
+			continue
+		}
+		for _, x := range cont.Instrs {
+			if x == ssa.Instruction(out) {
+				break
+			}
+			for _, op := range x.Operands(nil) {
+				if *op == ssa.Value(A) {
+					okUse = false
+				}
+			}
+			switch x.(type) {
+			case *ssa.Call, *ssa.Go, *ssa.Defer:
+				okUse = false
+			}
+		}
+		if !okUse {
+			continue
+		}
+		// the copy-in
+		var init *ssa.Store
+		for _, r := range *nc.Referrers() {
+			if st, ok := r.(*ssa.Store); ok && st.Addr == ssa.Value(nc) && st.Val == ssa.Value(arg) {
+				init = st
+			}
+		}
+		if init == nil {
+			continue
+		}
+		removeInstr(init)
+		removeInstr(out)
+		replaceUses(nc, A)
+		removeInstr(nc)
+		for j, l := range f.Locals {
+			if l == nc {
+				f.Locals = append(f.Locals[:j:j], f.Locals[j+1:]...)
+				break
+			}
+		}
+		if nc.Heap && !A.Heap {
+			A.Heap = true
+			for j, l := range f.Locals {
+				if l == A {
+					f.Locals = append(f.Locals[:j:j], f.Locals[j+1:]...)
+					break
+				}
+			}
+		}
+		in.copyInOut++
+	}
 }
 
 // thread makes the branch that follows an inlined call path-exact.
@@ -3715,6 +3893,9 @@ func inlineHelpers(tops []*ssa.Function) (dropped map[*ssa.Function]bool, notes 
 	}
 	if in.flagsNamed > 0 {
 		notes = append(notes, fmt.Sprintf("%d constant true flag(s) under a test of a flag returned by a module function read as that flag", in.flagsNamed))
+	}
+	if in.copyInOut > 0 {
+		notes = append(notes, fmt.Sprintf("%d variable(s) of an inlined helper that hold a parameter handed back on every return and stored back by the caller (`v = h(.., v)`) replaced by the caller's variable", in.copyInOut))
 	}
 	if in.litArgs > 0 {
 		notes = append(notes, fmt.Sprintf("%d go/defer statement(s) of a literal with arguments rewritten as a literal capturing fresh variables that hold the arguments", in.litArgs))
